@@ -390,18 +390,26 @@ def inject(block, fault, rng):
         return 'Output %s used as argument %d of %s' % (o.name, k, n)
     if fault == 'duplicate_name':
         ws = sorted(block.wirevector_set, key=lambda w: w.name)
-        w = rng.choice([x for x in ws if not isinstance(x, pyrtl.Const)])
-        dup = pyrtl.WireVector(w.bitwidth, 'dup_tmp_name', block=block)
-        dup.name = w.name  # same name, different signal
-        # connect it so only the name is at fault
-        src = rng.choice(sorted(block.wirevector_subset((pyrtl.Input,)), key=lambda x: x.name))
-        if src.bitwidth >= dup.bitwidth:
+        cands = [x for x in ws if not isinstance(x, pyrtl.Const)]
+        # one pair, two different names each carried twice, or one name carried by three wires
+        shape = rng.choice(['pair', 'two-names', 'triple'])
+        victims = {'pair': [rng.choice(cands)], 'triple': [rng.choice(cands)] * 2,
+                   'two-names': rng.sample(cands, 2) if len(cands) >= 2 else [rng.choice(cands)]}[shape]
+        srcs = sorted(block.wirevector_subset((pyrtl.Input,)), key=lambda x: x.name)
+        for k, w in enumerate(victims):
+            dup = pyrtl.WireVector(w.bitwidth, 'dup_tmp_name%d' % k, block=block)
+            dup.name = w.name  # same name, different signal
+            # connect it so only the name is at fault
+            src = rng.choice(srcs)
+            if src.bitwidth < dup.bitwidth:
+                if k == 0:
+                    return None
+                block.remove_wirevector(dup)
+                continue
             block.logic.add(LN('s', tuple(range(dup.bitwidth)), (src,), (dup,)))
-        else:
-            return None
-        o = pyrtl.Output(dup.bitwidth, 'dup_sink', block=block)
-        block.logic.add(LN('w', None, (dup,), (o,)))
-        return 'second wire named %s' % w.name
+            o = pyrtl.Output(dup.bitwidth, 'dup_sink%d' % k, block=block)
+            block.logic.add(LN('w', None, (dup,), (o,)))
+        return '%s: extra wire(s) named %s' % (shape, [w.name for w in victims])
     if fault == 'comb_cycle':
         cands = sites(block, lambda n: n.op not in 'r@m' and n.dests
                       and any(a.bitwidth == n.dests[0].bitwidth for a in n.args)
@@ -493,6 +501,17 @@ def build(ctx, i):
             o <<= r
             d.outputs.append(o)
         gen_designs.add_sync_memory(rng, d)
+        return d
+    if i % 5 == 1:
+        # the block under test is a PostSynthBlock (what synthesize() leaves as the working block): the fault
+        # classes and the simulators' own sanity_check call apply to it like to any other block
+        d = gen_designs.make_design(rng, wide_prob=0.0, n_ops=rng.randint(2, 5), max_width=4,
+                                    allow_rom=(i % 2 == 0))
+        pyrtl.synthesize()
+        d.block = pyrtl.working_block()
+        d.inputs = sorted(d.block.wirevector_subset(pyrtl.Input), key=lambda w: w.name)
+        d.outputs = sorted(d.block.wirevector_subset(pyrtl.Output), key=lambda w: w.name)
+        d.regs = sorted(d.block.wirevector_subset(pyrtl.Register), key=lambda w: w.name)
         return d
     d = gen_designs.make_design(rng, wide_prob=0.1)
     if i % 5 == 4:
